@@ -1,4 +1,5 @@
 pub mod engine;
+pub mod fmodel;
 pub mod gen;
 pub mod model;
 pub mod props;
